@@ -1,5 +1,392 @@
-"""Planning-level workload families (objects, rules, timelines) shared by C01-C06 and C17."""
+"""Planning-level workload families (state variables, reusable resources, temporal predicates, rules) shared by C01-C06.
+Every failure is tagged with the property that owns it; each property's check reports only its own."""
+from fractions import Fraction
+
+from vlib import common, plangen, riddle, solverlib
+from vlib.riddle import ev
+
+Z = Fraction(0)
+GEN = {"sv": plangen.gen_sv, "rr": plangen.gen_rr, "tl": plangen.gen_tl, "rules": plangen.gen_rules}
+# which families each property runs (the others' failures are counted, not reported)
+FAMILIES = {"C01": ["sv", "rr", "rules"], "C02": ["sv", "rr", "rules"], "C03": ["rules", "sv"], "C04": ["sv"], "C05": ["rr"], "C06": ["tl", "sv", "rr"]}
+
+
+def fr(v):
+    return str(v[0]) + ("" if v[1] == 0 else "%+deps" % v[1])
+
+
+class Plan:
+    """the solution JSON seen as a plan"""
+
+    def __init__(self, out):
+        self.sol = solverlib.Solution(out.post)
+        self.atoms = list(self.sol.atoms.values())
+        self.origin = self.sol.lookup(["origin"])
+        self.horizon = self.sol.lookup(["horizon"])
+        self.names = {}
+        for n, e in self.sol.top.items():
+            if isinstance(e["value"], int):
+                self.names[e["value"]] = n
+
+    def par(self, atom, name):
+        for p in atom["pars"]:
+            if p["name"] == name:
+                return self.sol._value(p)
+        return None
+
+    def active(self):
+        return [a for a in self.atoms if a["state"] == "Active"]
+
+
+def interval_preds(case_text):
+    """predicates that extend Interval / Impulse, by name, from the program text (smart-type predicates included)"""
+    return None
+
+
+def check_c06(case, plan, out):
+    fails = []
+    n = 0
+    for a in plan.active():
+        names = {p["name"] for p in a["pars"]}
+        if {"start", "end"} <= names:
+            n += 1
+            s, e = plan.par(a, "start"), plan.par(a, "end")
+            d = plan.par(a, "duration")
+            kind = "fact-or-goal"
+            where = "%s atom of %s" % (a["state"], a["predicate"])
+            if not (plan.origin <= s):
+                fails.append(("C06", "interval/start-before-origin/" + a["predicate"].split(".")[-1], "%s has start %s < origin %s" % (where, fr(s), fr(plan.origin))))
+            if not (s <= e):
+                fails.append(("C06", "interval/end-before-start/" + a["predicate"].split(".")[-1], "%s has start %s > end %s" % (where, fr(s), fr(e))))
+            if not (e <= plan.horizon):
+                fails.append(("C06", "interval/end-after-horizon/" + a["predicate"].split(".")[-1], "%s has end %s > horizon %s" % (where, fr(e), fr(plan.horizon))))
+            if d is not None:
+                if (d[0], d[1]) != (e[0] - s[0], e[1] - s[1]) or d < (Z, Z):
+                    fails.append(("C06", "interval/duration/" + a["predicate"].split(".")[-1], "%s has duration %s but end - start = %s" % (where, fr(d), fr((e[0] - s[0], e[1] - s[1])))))
+        elif "at" in names:
+            n += 1
+            t = plan.par(a, "at")
+            if not (plan.origin <= t <= plan.horizon):
+                fails.append(("C06", "impulse/outside-origin-horizon/" + a["predicate"].split(".")[-1], "Active impulse atom of %s has at = %s outside [%s, %s]" % (a["predicate"], fr(t), fr(plan.origin), fr(plan.horizon))))
+    return fails, n
+
+
+def atoms_by_instance(plan, type_pred):
+    """Active atoms grouped by the (single) instance their tau designates; atoms whose tau still has several values are returned separately"""
+    groups, multi = {}, []
+    for a in plan.active():
+        tau = plan.par(a, "tau")
+        if tau is None or not type_pred(a):
+            continue
+        if isinstance(tau, frozenset):
+            multi.append(a)
+            continue
+        groups.setdefault(tau, []).append(a)
+    return groups, multi
+
+
+def check_c04(case, plan, out):
+    fails = []
+    sv_ids = {t["id"] for t in (out.timelines or []) if t.get("type") == "StateVariable"}
+    groups, multi = atoms_by_instance(plan, lambda a: "start" in {p["name"] for p in a["pars"]} and a["predicate"].startswith("SV"))
+    pairs = 0
+    for inst, atoms in groups.items():
+        for i in range(len(atoms)):
+            for j in range(i + 1, len(atoms)):
+                a, b = atoms[i], atoms[j]
+                s1, e1, s2, e2 = plan.par(a, "start"), plan.par(a, "end"), plan.par(b, "start"), plan.par(b, "end")
+                pairs += 1
+                if max(s1, s2) < min(e1, e2):
+                    fails.append(("C04", "overlap-on-state-variable", "atoms %s [%s, %s) and %s [%s, %s) on state variable %s overlap" % (
+                        a["predicate"], fr(s1), fr(e1), b["predicate"], fr(s2), fr(e2), plan.names.get(inst, inst))))
+    # the extracted timeline: at most one atom per segment, and the segments agree with the atoms
+    segs = 0
+    for t in out.timelines or []:
+        if t.get("type") != "StateVariable":
+            continue
+        for v in t["values"]:
+            segs += 1
+            if len(v["atoms"]) > 1:
+                fails.append(("C04", "timeline-segment-with-several-atoms", "timeline of %s has %d atoms in segment [%s, %s)" % (t.get("name"), len(v["atoms"]), fr(solverlib.rat(v["from"])), fr(solverlib.rat(v["to"])))))
+            f, to = solverlib.rat(v["from"]), solverlib.rat(v["to"])
+            exp = sorted(a["id"] for a in groups.get(t["id"], []) if plan.par(a, "start") <= f and to <= plan.par(a, "end") and f < to)
+            exp_multi = [a["id"] for a in multi]
+            got = sorted(x for x in v["atoms"] if x not in exp_multi)
+            if f < to and got != exp:
+                fails.append(("C04", "timeline-disagrees-with-atoms", "timeline of %s lists %s in [%s, %s) but the active atoms covering it are %s" % (t.get("name"), got, fr(f), fr(to), exp)))
+    return fails, pairs, segs
+
+
+def check_c05(case, plan, out):
+    fails = []
+    groups, multi = atoms_by_instance(plan, lambda a: a["predicate"].endswith("Use"))
+    instants = 0
+    for inst, atoms in groups.items():
+        cap = None
+        for t in out.timelines or []:
+            if t["id"] == inst and "capacity" in t:
+                cap = solverlib.rat(t["capacity"])
+        f = plan.sol.fields_of(inst)
+        if "capacity" in f:
+            cap2 = plan.sol._value(f["capacity"])
+            if cap is not None and cap != cap2:
+                fails.append(("C05", "timeline-capacity-differs", "timeline capacity %s differs from the instance's capacity %s" % (fr(cap), fr(cap2))))
+            cap = cap2
+        if cap is None:
+            continue
+        for a in atoms:
+            t0 = plan.par(a, "start")
+            if not (t0 < plan.par(a, "end")):
+                continue
+            instants += 1
+            tot = (Z, Z)
+            cover = []
+            for b in atoms:
+                if plan.par(b, "start") <= t0 < plan.par(b, "end"):
+                    am = plan.par(b, "amount")
+                    tot = (tot[0] + am[0], tot[1] + am[1])
+                    cover.append((fr(plan.par(b, "start")), fr(plan.par(b, "end")), fr(am)))
+            if tot > cap:
+                fails.append(("C05", "usage-exceeds-capacity", "at time %s the active Use atoms on %s need %s > capacity %s: %s" % (fr(t0), plan.names.get(inst, inst), fr(tot), fr(cap), cover)))
+    segs = 0
+    for t in out.timelines or []:
+        if t.get("type") != "ReusableResource":
+            continue
+        for v in t["values"]:
+            f, to = solverlib.rat(v["from"]), solverlib.rat(v["to"])
+            if not f < to:
+                continue
+            segs += 1
+            tot = (Z, Z)
+            for b in groups.get(t["id"], []):
+                if plan.par(b, "start") <= f and to <= plan.par(b, "end"):
+                    am = plan.par(b, "amount")
+                    tot = (tot[0] + am[0], tot[1] + am[1])
+            got = solverlib.rat(v["usage"])
+            if not multi and got != tot:
+                fails.append(("C05", "timeline-usage-differs", "timeline of %s reports usage %s in [%s, %s) but the covering active atoms sum to %s" % (t.get("name"), fr(got), fr(f), fr(to), fr(tot))))
+    return fails, instants, segs
+
+
+def check_c03(case, plan, out):
+    """causal structure from the listener graph: every in-plan flaw resolved, unifications well-formed, rule sub-goals present, no cycle"""
+    fails = []
+    g = out.graph
+    if not g:
+        return fails, 0
+    flaws = {f["id"]: f for f in g["flaws"]}
+    ress = {r["id"]: r for r in g["resolvers"]}
+    atom_flaw = {}
+    for f in g["flaws"]:
+        d = f["data"]
+        if d.get("type") in ("fact", "goal"):
+            atom_flaw[d["atom"]] = f
+    checked = 0
+    edges = {}
+    for f in g["flaws"]:
+        d = f["data"]
+        if f["phi_val"] != "T":
+            continue
+        checked += 1
+        true_res = [ress[r] for r in f["resolvers"] if ress[r]["rho_val"] == "T"]
+        kind = d.get("type")
+        if not f["expanded"]:
+            fails.append(("C03", "in-plan-flaw-not-expanded/" + str(kind), "a flaw of type %s is in the plan (phi true) but was never expanded" % kind))
+            continue
+        if not true_res:
+            fails.append(("C03", "in-plan-flaw-without-resolver/" + str(kind), "a flaw of type %s is in the plan (phi true) but none of its resolvers is" % kind))
+            continue
+        if kind in ("fact", "goal", "bool", "enum") and len(true_res) > 1:
+            fails.append(("C03", "exclusive-flaw-with-several-resolvers/" + str(kind), "an exclusive flaw of type %s has %d active resolvers" % (kind, len(true_res))))
+        if kind in ("fact", "goal"):
+            atom = plan.sol.atoms.get(d["atom"])
+            if atom is None:
+                continue
+            r = true_res[0]
+            rt = r["data"].get("type")
+            if rt == "unify":
+                tgt = plan.sol.atoms.get(int(r["data"]["target"]))
+                if atom["state"] != "Unified":
+                    fails.append(("C03", "unify-resolver-but-atom-not-unified", "atom of %s is solved by unification but its state is %s" % (atom["predicate"], atom["state"])))
+                if tgt is None or tgt["state"] != "Active":
+                    fails.append(("C03", "unified-with-non-active-atom", "atom of %s is unified with an atom whose state is %s" % (atom["predicate"], tgt and tgt["state"])))
+                elif tgt["predicate"] != atom["predicate"]:
+                    fails.append(("C03", "unified-with-other-predicate", "atom of %s is unified with an atom of %s" % (atom["predicate"], tgt["predicate"])))
+                else:
+                    for p in atom["pars"]:
+                        a, b = plan.par(atom, p["name"]), plan.par(tgt, p["name"])
+                        if a != b:
+                            fails.append(("C03", "unified-atoms-differ-in-argument", "atom of %s is unified with an atom whose argument %s is %s instead of %s" % (atom["predicate"], p["name"], b, a)))
+                            break
+                    edges.setdefault(d["atom"], []).append(int(r["data"]["target"]))
+            elif rt == "activate":
+                if atom["state"] != "Active":
+                    fails.append(("C03", "activate-resolver-but-atom-not-active", "atom of %s is solved by activation but its state is %s" % (atom["predicate"], atom["state"])))
+                # sub-goals demanded by the rule (reference: the generator's rule table)
+                children = [c for c in g["flaws"] if r["id"] in c["causes"]]
+                child_atoms = [c["data"] for c in children if c["data"].get("type") in ("fact", "goal")]
+                for c in child_atoms:
+                    edges.setdefault(d["atom"], []).append(c["atom"])
+                if kind == "goal" and case.get("preds") and atom["predicate"] in case["preds"]:
+                    spec = case["preds"][atom["predicate"]]
+                    want = sorted(s["pred"] for s in spec["subs"])
+                    got = sorted(c["predicate"] for c in child_atoms)
+                    if spec["disj"] is None and want != got:
+                        fails.append(("C03", "rule-subgoals-missing", "active goal of %s has sub-goals %s, its rule demands %s" % (atom["predicate"], got, want)))
+                    for c in children:
+                        if c["phi_val"] != "T":
+                            fails.append(("C03", "subgoal-of-active-goal-not-in-plan", "a sub-goal (%s) of an active goal of %s is not in the plan" % (c["data"].get("predicate", c["data"].get("type")), atom["predicate"])))
+            # state consistency
+        # atoms whose flaw is in plan must not be Inactive
+    for a in plan.atoms:
+        f = atom_flaw.get(a["id"])
+        if f and f["phi_val"] == "T" and a["state"] == "Inactive":
+            fails.append(("C03", "required-atom-unjustified", "an atom of %s is required by the plan (its flaw is active) but is neither active nor unified" % a["predicate"]))
+    # acyclicity of support (goal -> sub-goal, unified -> target)
+    color = {}
+
+    def dfs(u, stack):
+        color[u] = 1
+        for v in edges.get(u, []):
+            if color.get(v) == 1:
+                return stack + [u, v]
+            if color.get(v) is None:
+                r = dfs(v, stack + [u])
+                if r:
+                    return r
+        color[u] = 2
+        return None
+    for u in list(edges):
+        if color.get(u) is None:
+            cyc = dfs(u, [])
+            if cyc:
+                fails.append(("C03", "cyclic-causal-support", "the support relation has a cycle through atoms %s" % cyc[-4:]))
+                break
+    return fails, checked
+
+
+def check_rules_c01(case, plan, out):
+    """C01 on rule bodies: for every Active goal of a generated predicate, the rule's constraints evaluated with the atom's arguments (sub-goals bound
+    through the causal graph, in creation order)"""
+    fails = []
+    n = 0
+    g = out.graph
+    if not g or "preds" not in case:
+        return fails, 0
+    ress = {r["id"]: r for r in g["resolvers"]}
+    for f in g["flaws"]:
+        d = f["data"]
+        if d.get("type") != "goal" or f["phi_val"] != "T":
+            continue
+        atom = plan.sol.atoms.get(d["atom"])
+        if atom is None or atom["state"] != "Active" or atom["predicate"] not in case["preds"]:
+            continue
+        spec = case["preds"][atom["predicate"]]
+        act = [ress[r] for r in f["resolvers"] if ress[r]["rho_val"] == "T" and ress[r]["data"].get("type") == "activate"]
+        if not act:
+            continue
+        children = sorted((c for c in g["flaws"] if act[0]["id"] in c["causes"] and c["data"].get("type") in ("fact", "goal")), key=lambda c: c["order"])
+        env = {}
+        for p in atom["pars"]:
+            env[p["name"]] = plan.sol._value(p)
+        if spec["disj"] is None and len(children) == len(spec["subs"]):
+            for s, c in zip(spec["subs"], children):
+                ca = plan.sol.atoms.get(c["data"]["atom"])
+                if ca:
+                    for p in ca["pars"]:
+                        env[s["name"] + "." + p["name"]] = plan.sol._value(p)
+                    # the argument passed to the sub-goal
+                    argn = case["preds"].get(s["pred"], {}).get("argname", "x")
+                    try:
+                        want = ev(s["arg"], env)
+                        got = env.get(s["name"] + "." + argn)
+                        n += 1
+                        if got is not None and want != got:
+                            fails.append(("C01", "rules/subgoal-argument", "sub-goal %s of an active %s was created with %s = %s, the rule says %s = %s" % (s["name"], atom["predicate"], argn, got, riddle.show(s["arg"]), want)))
+                    except (riddle.Unknown, KeyError):
+                        pass
+        for c in spec["cons"]:
+            try:
+                v = ev(c, env)
+            except (riddle.Unknown, KeyError):
+                continue
+            n += 1
+            if v is not True:
+                fails.append(("C01", "rules/rule-constraint-" + ("false" if v is False else "undetermined"), "active goal of %s: rule constraint %s evaluates to %s with %s" % (atom["predicate"], riddle.show(c), v, {k: str(x) for k, x in env.items() if not isinstance(x, (int, frozenset))})))
+    return fails, n
+
+
+def work(exes, family, start, n, owner):
+    part = common.Partial()
+    rnd = common.rng("PLAN", family, start)
+    names = sorted(exes)
+    for i in range(n):
+        case = GEN[family](rnd, start + i)
+        variant = names[(start + i) % len(names)]
+        out = solverlib.run_probe(exes[variant], [case["text"]], timeout=30.0)
+        fp = common.fingerprint(case["text"])
+        st = out.status
+        if st == "timeout":
+            part.inconc("timeout (search budget) in family " + family)
+            continue
+        if st == "crash":
+            part.inconc("abort (owned by C18): " + out.crash.site())
+            continue
+        part.count("%s: programs (%s)" % (family, variant))
+        part.count("%s: outcome %s" % (family, st))
+        fails = []
+        nontriv = False
+        if st == "solved":
+            try:
+                plan = Plan(out)
+            except (KeyError, TypeError) as ex:
+                part.harness_errors.append("cannot read the solution of %s: %r" % (case["id"], ex))
+                continue
+            f6, n6 = check_c06(case, plan, out)
+            part.count("C06: temporal atoms checked", n6)
+            fails += f6
+            f4, pairs, segs = check_c04(case, plan, out)
+            part.count("C04: atom pairs on one state variable compared", pairs)
+            part.count("C04: timeline segments compared", segs)
+            fails += f4
+            f5, inst, segs5 = check_c05(case, plan, out)
+            part.count("C05: instants summed", inst)
+            part.count("C05: timeline segments compared", segs5)
+            fails += f5
+            f3, nf = check_c03(case, plan, out)
+            part.count("C03: in-plan flaws checked", nf)
+            fails += f3
+            f1, n1 = check_rules_c01(case, plan, out)
+            part.count("C01: rule constraints / sub-goal arguments evaluated", n1)
+            fails += f1
+            nontriv = {"C04": pairs > 0, "C05": inst > 0, "C06": n6 > 0, "C03": nf > 1, "C01": n1 > 0 or n6 > 0, "C02": True}.get(owner, True)
+            if out.graph and any(r["data"].get("type") == "unify" and r["rho_val"] == "T" for r in out.graph["resolvers"]):
+                part.count("%s: solutions with an active unification" % family)
+            if any(len(t["values"]) > 2 for t in (out.timelines or [])):
+                part.count("%s: solutions with multi-segment timelines" % family)
+        else:
+            msg = out.read_error or out.solve_error or ""
+            if case.get("planted") and (st == "unsolvable" or "unsolvable" in msg or "inconsistent" in msg):
+                fails.append(("C02", "%s/planted-problem-declared-unsolvable" % family, "the problem was built around a feasible plan but is declared unsolvable (%s)" % (msg or st)))
+            elif st in ("read-error", "solve-error"):
+                part.count("%s: rejected with another error: %s" % (family, msg[:50]))
+            nontriv = owner == "C02"
+        part.case(fp, nontriv, {"program": case["text"][:1500], "variant": variant, "outcome": st})
+        done = set()
+        for own, key, detail in fails:
+            if own != owner:
+                part.count("failures owned by " + own)
+                continue
+            if key in done:
+                continue
+            done.add(key)
+            part.violation(key, detail, {"program": case["text"], "variant": variant, "detail": detail})
+    return part.dump()
 
 
 def run_families(res, exes, tier, owner):
-    return
+    fams = FAMILIES.get(owner, [])
+    total = 400 if tier == "quick" else 4000
+    per = 10 if tier == "quick" else 25
+    for fam in fams:
+        common.pmap(work, [(exes, fam, s, per, owner) for s in range(0, total, per)], res)
